@@ -236,7 +236,8 @@ def all_families(nws=(1, 2, 3)):
         out += select_cases(nw)
         out += failure_cases(nw)
         out += [request_reply(nw, 1), request_reply(nw, 2), message_during_spawn(nw), send_to_finished(nw), filter_fails(nw),
-                abandoned_await(nw), abandoned_await_msg(nw), fail_multi_worker_select(nw), fail_already_failed_multi(nw)]
+                abandoned_await(nw), abandoned_await_msg(nw), fail_multi_worker_select(nw), fail_already_failed_multi(nw),
+                shared_target(nw), shared_target(nw, True)]
         out += heap_cases(nw)
         out += [bin_final_send(nw), bin_final_send_tuple(nw)]
         out += ref_cases(nw)
@@ -355,6 +356,19 @@ def resource_cases(nw=2):
                   [ropen(1), spawn(2, 3, t(r(1), c(I(1)))), select(3, aw(2)), ret(r(3))],
                   [ret(c(I(7)))]], nw=nw, io=True)
     out.append(meta(s, True, True, ["C14"]))
+    # the handle travels BELOW the top level of the capture: inside a tuple built by the parent
+    # (seeded change C14-1: ownership was transferred only when a top-level capture/argument was a resource)
+    s = scenario("res_nested_capture_w%d" % nw,
+                 [[spawn(1, 2), select(2, aw(1)), ret(r(2))],
+                  [ropen(1), let(4, t(c(I(1)), r(1))), spawn(2, 3, r(4)), select(3, aw(2)), ret(r(3))],
+                  [let(2, fld(1, 1)), ruse(3, 2), ret(r(3))]], nw=nw, io=True)
+    out.append(meta(s, True, True, ["C14"]))
+    # ... and the old owner tries to use it after handing it away nested in a tuple
+    s = scenario("res_nested_capture_old_owner_w%d" % nw,
+                 [[spawn(1, 2), select(2, tmo(3)), ret(OKE)],
+                  [ropen(1), let(4, t(c(I(1)), r(1))), spawn(2, 3, r(4)), ruse(5, 1), ret(r(5))],
+                  [let(2, fld(1, 1)), select(4, tmo(2)), ruse(3, 2), rclose(2), ret(r(3))]], nw=nw, io=True, maxtick=3)
+    out.append(meta(s, False, True, ["C14"]))
     # a handle left in a mailbox of a process that finishes without receiving it
     s = scenario("res_in_mailbox_w%d" % nw,
                  [[spawn(1, 2), spawn(2, 3, r(1)), select(3, aw(2)), send(1, c(I(1))), select(4, aw(1)), ret(r(4))],
@@ -612,3 +626,15 @@ def fail_already_failed_multi(nw=2):
                [select(1, recv(("bin",))), ret(OKE)],
                [select(1, tmo(2)), ret(c(I(1)))]]
     return meta(scenario("fail_already_failed_multi_w%d" % nw, scripts, nw=nw, maxtick=2), False, False, ["C15", "C05"])
+
+
+def shared_target(nw=2, bin_result=False):
+    # two (three) processes await the SAME target while it is still blocked; the entry process awaits them all
+    # (seeded change C03-1: the target's worker registered only the first awaiter of a watched target)
+    res = hb(4, 2) if bin_result else c(I(42))
+    scripts = [[spawn(1, 2), spawn(2, 3, r(1)), spawn(3, 3, r(1)), spawn(4, 3, r(1)), send(1, c(I(1))),
+                select(5, aw(2)), select(6, aw(3)), select(7, aw(4)), select(8, aw(1)), ret(t(r(5), r(6), r(7), r(8)))],
+               [select(1, recv()), ret(res)],
+               [select(2, aw(1)), ret(t(c(I(0)), r(2)))]]
+    return meta(scenario("shared_target%s_w%d" % ("_bin" if bin_result else "", nw), scripts, nw=nw, maxpid=5),
+                True, True, ["C03", "C04", "C06"] if bin_result else ["C03", "C04"], large=True)
